@@ -88,6 +88,15 @@ func isUsed(field string, node Node) bool {
 						used = true
 					}
 				}
+			case NodeTypeOrderSensitiveTransform:
+				// Ties on the order by key are broken by comparing whole records, so with a limit every field decides which records are kept.
+				if node.OrderSensitiveTransform.Limit != nil {
+					for _, arg := range node.Schema.Fields {
+						if arg.Name == field {
+							used = true
+						}
+					}
+				}
 			case NodeTypeUnnest:
 				if node.Unnest.Field == field {
 					used = true
